@@ -7,6 +7,7 @@ Import ListNotations.
 Open Scope nat_scope.
 Set Warnings "-unused-intro-pattern".
 Set Warnings "-deprecated".
+#[local] Opaque FUEL.
 
 (* annotation language without container constructors: int/str/bool/None/Any,
    nested spec classes, Optional and Union of those *)
@@ -426,21 +427,24 @@ Lemma lsame_refl n l h : has_shape n l h -> lsame l l h.
 Proof. intro H. eapply lsame_of_shapes; eauto. Qed.
 
 Definition rsame (v r : val) (h : heap_t) : Prop :=
-  match v with VRef l => exists l', r = VRef l' /\ lsame l l' h | _ => r = v end.
+  r = v \/ exists l l', v = VRef l /\ r = VRef l' /\ lsame l l' h.
 
 Lemma rsame_stable v r : stable (fun h => rsame v r h).
 Proof.
-  intros h h' E H. destruct v; simpl in *; auto. destruct H as [l' [-> L]].
-  exists l'. split; auto. eapply lsame_stable; eauto.
+  intros h h' E [H|[l [l' [H1 [H2 L]]]]]; [left; auto|right].
+  exists l, l'. split; auto. split; auto. eapply lsame_stable; eauto.
 Qed.
 
 Lemma rsame_check ct h v r t :
   simple t = true -> rsame v r h ->
   check_type FUEL ct h v t = true -> check_type FUEL ct h r t = true.
 Proof.
-  intros St R C. rewrite <- C. apply check_simple_same; auto.
-  destruct v; simpl in *; auto. destruct R as [l' [-> [_ [_ E]]]]. eauto.
+  intros St [->|[l [l' [-> [-> [_ [_ E]]]]]]] C; auto. rewrite <- C. apply check_simple_same; auto.
+  simpl. eauto.
 Qed.
+
+Lemma has_shape_inj n m l h : has_shape n l h -> has_shape m l h -> n = m.
+Proof. intros [o [N S]] [o' [N' S']]. congruence. Qed.
 
 Definition memo_same (memo : memo_t) (h : heap_t) : Prop :=
   forall l l', In (l, l') memo -> lsame l l' h.
@@ -496,6 +500,14 @@ Section HoareKeep.
     eapply hoare_pre; [|apply (hoare_keep ct F TT m Q St Hm)]. intros h HF. split; [exact I|exact HF].
   Qed.
 
+  Lemma hoare_bind_keepP {A B} F P (m : M A) (k : A -> M B) Q R :
+    stable F -> hoare ct P m Q ->
+    (forall a, hoare ct (fun h => Q a h /\ F h) (k a) R) ->
+    hoare ct (fun h => P h /\ F h) (bind m k) R.
+  Proof.
+    intros St Hm Hk. eapply hoare_bind; [|exact Hk]. apply (hoare_keep ct F P m Q St Hm).
+  Qed.
+
   Lemma pres_apply_fn f v : pres ct (apply_fn f v).
   Proof.
     unfold apply_fn. apply pres_bind; [apply pres_tick|]. intros _.
@@ -508,3 +520,177 @@ Section HoareKeep.
   Proof. unfold val_eqM. pgo. Qed.
 End HoareKeep.
 #[export] Hint Resolve pres_apply_fn pres_check_typeM pres_val_eqM : pr.
+
+Create HintDb stb.
+#[export] Hint Resolve stable_and stable_TT has_shape_stable lsame_stable rsame_stable
+  memo_same_stable obj_ok_stable : stb.
+Ltac stb := unfold TT; auto 10 with stb.
+
+Section WriteKeep.
+  Variable ct : ctable.
+  (* a write to a cell of the same kind that keeps the stable facts F *)
+  Lemma hoare_write_keep (F : heap_t -> Prop) l o :
+    stable F ->
+    hoare ct (fun h => (has_shape (shape o) l h /\ obj_ok ct h o) /\ F h) (write l o) (fun _ h => F h).
+  Proof.
+    intro St. eapply hoare_post; [|apply (hoare_keep ct F _ _ _ St (hoare_write_ok ct l o))].
+    intros a h [_ HF]. exact HF.
+  Qed.
+End WriteKeep.
+
+Section DC.
+  Variable ct : ctable.
+  Definition Qdc (v : val) (r : val * memo_t) (h : heap_t) : Prop :=
+    rsame v (fst r) h /\ memo_same (snd r) h.
+
+  Lemma Qdc_stable v r : stable (Qdc v r).
+  Proof. unfold Qdc. stb. Qed.
+  Hint Resolve Qdc_stable : stb.
+
+  Lemma dc_hoare fuel : forall v memo,
+    hoare ct (memo_same memo) (dc ct fuel v memo) (Qdc v).
+  Proof.
+    induction fuel as [|f IH]; intros v memo; simpl; [apply hoare_fail|].
+    destruct v; try (apply hoare_ret; intros h H; split; simpl; auto; left; reflexivity).
+    destruct (assoc l memo) as [l'|] eqn:A.
+    { apply hoare_ret. intros h H. split; auto. simpl. right. exists l, l'. split; auto. split; auto.
+      eapply memo_same_assoc; eauto. }
+    eapply hoare_bind_keep; [apply memo_same_stable|apply hoare_read_ok|].
+    intros o. destruct o as [xs|kvs|xs|c d].
+    - (* list *)
+      eapply hoare_pre with (P := fun h => has_shape 0 l h /\ memo_same memo h); [simpl; tauto|].
+      eapply hoare_bind_keep;
+        [apply stable_and; [apply has_shape_stable|apply memo_same_stable]
+        |eapply hoare_pre; [|apply hoare_alloc]; simpl; auto|].
+      intros l'.
+      set (Inv := fun (m : memo_t) (h : heap_t) => memo_same m h /\ (has_shape 0 l' h /\ lsame l l' h)).
+      eapply hoare_bind with (Q := Inv).
+      { eapply hoare_pre; [|apply hoare_foldM with (Inv := Inv)].
+        - intros h [N [S M]].
+          assert (S' : has_shape 0 l' h) by (exists (OList []); auto).
+          assert (L : lsame l l' h) by (eapply lsame_of_shapes; eauto).
+          split; [apply memo_same_cons; auto|auto].
+        - intros m x. unfold Inv.
+          eapply hoare_bind_keepP;
+            [apply stable_and; [apply has_shape_stable|apply lsame_stable]|apply IH|].
+          intros r. cbv beta.
+          eapply hoare_bind_keep; [stb|apply hoare_read_ok|].
+          intros o'. destruct o' as [ys| | |]; try apply hoare_fail.
+          eapply hoare_bind with (Q := fun _ h => Qdc x r h /\ has_shape 0 l' h /\ lsame l l' h).
+          { eapply hoare_pre; [|apply hoare_write_keep; stb].
+            intros h [[S0 _] H]. simpl. split; [split; [exact S0|exact I]|exact H]. }
+          intros _. apply hoare_ret. intros h [[_ M] H]. split; auto. }
+      intros memo'. apply hoare_ret. intros h [M [S L]]. split; auto. simpl. right. eauto.
+    - (* dict *)
+      eapply hoare_pre with (P := fun h => has_shape 1 l h /\ memo_same memo h); [simpl; tauto|].
+      eapply hoare_bind_keep; [stb|eapply hoare_pre; [|apply hoare_alloc]; simpl; auto|].
+      intros l'.
+      set (Inv := fun (m : memo_t) (h : heap_t) => memo_same m h /\ (has_shape 1 l' h /\ lsame l l' h)).
+      eapply hoare_bind with (Q := Inv).
+      { eapply hoare_pre; [|apply hoare_foldM with (Inv := Inv)].
+        - intros h [N [S M]].
+          assert (S' : has_shape 1 l' h) by (exists (ODict []); auto).
+          assert (L : lsame l l' h) by (eapply lsame_of_shapes; eauto).
+          split; [apply memo_same_cons; auto|auto].
+        - intros m p. unfold Inv.
+          eapply hoare_bind_keepP; [stb|apply IH|].
+          intros rk. cbv beta.
+          eapply hoare_pre with (P := fun h => memo_same (snd rk) h /\ (has_shape 1 l' h /\ lsame l l' h));
+            [unfold Qdc; tauto|].
+          eapply hoare_bind_keepP; [stb|apply IH|].
+          intros rv. cbv beta.
+          eapply hoare_bind_keep; [stb|apply hoare_read_ok|].
+          intros o'. destruct o' as [|ys| |]; try apply hoare_fail.
+          eapply hoare_bind with (Q := fun _ h => Qdc (snd p) rv h /\ has_shape 1 l' h /\ lsame l l' h).
+          { eapply hoare_pre; [|apply hoare_write_keep; stb].
+            intros h [[S0 _] H]. simpl. split; [split; [exact S0|exact I]|exact H]. }
+          intros _. apply hoare_ret. intros h [[_ M] H]. split; auto. }
+      intros memo'. apply hoare_ret. intros h [M [S L]]. split; auto. simpl. right. eauto.
+    - (* set *)
+      eapply hoare_pre with (P := fun h => memo_same memo h /\ has_shape 2 l h); [simpl; tauto|].
+      set (Inv := fun (acc : list val * memo_t) (h : heap_t) => memo_same (snd acc) h /\ has_shape 2 l h).
+      eapply hoare_bind with (Q := Inv).
+      { eapply hoare_pre; [|apply hoare_foldM with (Inv := Inv)]; [auto|].
+        intros acc x. unfold Inv.
+        eapply hoare_bind_keepP; [stb|apply IH|].
+        intros r. apply hoare_ret. intros h [[_ M] S]. split; auto. }
+      intros r. unfold Inv.
+      eapply hoare_bind_keep; [stb|eapply hoare_pre; [|apply hoare_alloc]; simpl; auto|].
+      intros l'. apply hoare_ret. intros h [N [M S]].
+      assert (L : lsame l l' h) by (eapply lsame_of_shapes; eauto; eexists; eauto).
+      split; simpl; [right; eauto|]. apply memo_same_cons; auto.
+    - (* instance *)
+      destruct (lookup_cls ct c) as [k|] eqn:Ek; [|apply hoare_fail].
+      destruct (c_dnc k).
+      { apply hoare_ret. intros h [[S _] M]. split; auto. simpl. right. exists l, l.
+        split; auto. split; auto. eapply lsame_refl; eauto. }
+      set (D := fun h => obj_ok ct h (OInst c d)).
+      eapply hoare_pre with (P := fun h => has_shape (3 + c) l h /\ D h /\ memo_same memo h);
+        [simpl; tauto|].
+      eapply hoare_bind_keep;
+        [unfold D; stb|eapply hoare_pre; [|apply hoare_alloc]; simpl; intros h _ k0 a v sp _ []|].
+      intros new.
+      set (Inv := fun (m : memo_t) (h : heap_t) =>
+                    memo_same m h /\ (has_shape (3 + c) new h /\ lsame l new h /\ D h)).
+      eapply hoare_bind with (Q := Inv).
+      { eapply hoare_pre; [|apply hoare_foldM_in with (Inv := Inv)].
+        - intros h [N [S [HD M]]].
+          assert (S' : has_shape (3 + c) new h) by (exists (OInst c []); auto).
+          assert (L : lsame l new h) by (eapply lsame_of_shapes; eauto).
+          split; auto.
+        - intros m [a x] Hin. unfold Inv.
+          eapply hoare_bind with
+            (Q := fun r h => Qdc x r h /\ (has_shape (3 + c) new h /\ lsame l new h /\ D h)).
+          { assert (Hret : hoare ct (fun h => memo_same m h /\ (has_shape (3 + c) new h /\ lsame l new h /\ D h))
+                             (ret (x, m))
+                             (fun r h => Qdc x r h /\ (has_shape (3 + c) new h /\ lsame l new h /\ D h))).
+            { apply hoare_ret. intros h [M H]. split; auto. split; simpl; auto. left; reflexivity. }
+            assert (Hdc : hoare ct (fun h => memo_same m h /\ (has_shape (3 + c) new h /\ lsame l new h /\ D h))
+                             (dc ct f x m)
+                             (fun r h => Qdc x r h /\ (has_shape (3 + c) new h /\ lsame l new h /\ D h))).
+            { apply hoare_keep; [unfold D; stb|apply IH]. }
+            destruct (lookup_attr k a) as [sp|]; [destruct (a_dnc sp); auto|];
+              destruct (val_is_scalar x); auto. }
+          intros r.
+          eapply hoare_bind_keep; [unfold D; stb|apply hoare_read_ok|].
+          intros o'. destruct o' as [| | |c' d']; try apply hoare_fail.
+          eapply hoare_bind with
+            (Q := fun _ h => Qdc x r h /\ (has_shape (3 + c) new h /\ lsame l new h /\ D h)).
+          { eapply hoare_pre; [|apply hoare_write_keep; unfold D; stb].
+            intros h [[S0 Ok'] H]. split; [|exact H]. split; [exact S0|].
+            destruct H as [[R _] [S1 [_ HD]]].
+            assert (c' = c) by (pose proof (has_shape_inj _ _ _ _ S0 S1) as E; simpl in E; lia). subst c'.
+            simpl in Ok' |- *. intros k0 a0 v0 sp Hk Hi Ha Hs.
+            apply in_app_or in Hi. destruct Hi as [Hi|[Hi|[]]]; [eapply Ok'; eauto|].
+            inversion Hi; subst a0 v0. eapply rsame_check; eauto. }
+          intros _. apply hoare_ret. intros h [[_ M] H]. split; auto. }
+      intros memo'. unfold Inv.
+      eapply hoare_bind with (Q := fun _ h => memo_same memo' h /\ lsame l new h).
+      { eapply hoare_pre with (P := fun h => TT h /\ (memo_same memo' h /\ lsame l new h)); [unfold TT; tauto|].
+        eapply hoare_post; [|apply hoare_keep; [stb|]].
+        - intros a h [_ H]. exact H.
+        - destruct (c_post_copy k); [|apply pres_ret].
+          apply pres_bind; [apply pres_apply_fn|intros; apply pres_ret]. }
+      intros _. apply hoare_ret. intros h [M L]. split; simpl.
+      + right. eauto.
+      + apply memo_same_cons; auto.
+  Qed.
+
+  Lemma deepcopy_hoare v : hoare ct TT (deepcopy ct v) (fun r h => rsame v r h).
+  Proof.
+    unfold deepcopy. eapply hoare_bind; [eapply hoare_pre; [|apply dc_hoare]; intros h _ l l' []|].
+    intros r. apply hoare_ret. intros h [H _]. exact H.
+  Qed.
+
+  Lemma protect_hoare v : hoare ct TT (protect ct v) (fun r h => rsame v r h).
+  Proof.
+    unfold protect. destruct (val_is_scalar v); [apply hoare_ret; intros; left; reflexivity|].
+    apply deepcopy_hoare.
+  Qed.
+
+  Lemma pres_deepcopy v : pres ct (deepcopy ct v).
+  Proof. eapply pres_post. apply deepcopy_hoare. Qed.
+  Lemma pres_protect v : pres ct (protect ct v).
+  Proof. eapply pres_post. apply protect_hoare. Qed.
+End DC.
+#[export] Hint Resolve pres_deepcopy pres_protect : pr.
